@@ -92,6 +92,9 @@ def run(ctx, progs):
 
         drainrules.drnview1(ctx, prog, cfg, "REINT1")
         drainrules.backfill2(ctx, prog, cfg, "REINT1")
+        from .. import geom
+
+        geom.remove2(ctx, prog, cfg, "REINT1")
         # while a Drain exists (it may be leaked) the header must not claim the slots it moves elements out of
         drainrules.drn1_abcf(ctx, prog, cfg, "REINT1")
         # which slots the views reinterpret as initialised: exactly the occupied region (and the free view its complement)
